@@ -37,7 +37,12 @@ pub struct Case {
     pub edit: Option<RuleSpec>,
 }
 
-const PATHS: &[&str] = &["/a", "/b", "/c", "/d", "/e"];
+/// the last path carries a marker and an upper-case letter (a single pattern in its regex tree, case flag matters)
+const PATHS: &[&str] = &["/a", "/b", "/c", "/d", "/e", "/Shop/@slug"];
+
+fn url_of_path(path: &str) -> String {
+    crate::gen::instantiate(path, 0, false)
+}
 
 pub fn final_rules(case: &Case) -> Vec<RuleSpec> {
     let mut m: BTreeMap<String, RuleSpec> = case.base.iter().map(|r| (r.id.clone(), r.clone())).collect();
@@ -99,7 +104,32 @@ fn cmp(label: &str, project: &Value, standalone: &Value) -> Option<String> {
 
 /// The live pipeline for one example on a router: (final status, backend status, headers, body, should log)
 pub fn pipeline(router: &Router<Rule>, example: &Example) -> Option<(u16, u16, Vec<(String, String)>, String, bool)> {
-    let req = Request::from_example(&router.config, example).ok()?;
+    // the request as a proxy would build it (not through Request::from_example, which the analyses use): raw parts of the
+    // example, normalised by the router's configuration
+    Request::from_example(&router.config, example).ok()?; // examples the analyses reject are not compared
+    let ev = serde_json::to_value(example).ok()?;
+    let url = ev["url"].as_str().unwrap_or("");
+    let (scheme, host, uri) = match url.split_once("://") {
+        Some((sch, rest)) => {
+            let (h, p) = match rest.find('/') {
+                Some(i) => (&rest[..i], &rest[i..]),
+                None => (rest, "/"),
+            };
+            (Some(sch.to_string()), Some(h.to_string()), p.to_string())
+        }
+        None => (None, None, url.to_string()),
+    };
+    let spec = RequestSpec {
+        uri,
+        host,
+        scheme,
+        method: ev["method"].as_str().map(|s| s.to_string()),
+        ip: ev["ip_address"].as_str().map(|s| s.to_string()),
+        headers: ev["headers"].as_array().map(|a| a.iter().map(|h| (h["name"].as_str().unwrap_or("").to_string(), h["value"].as_str().unwrap_or("").to_string())).collect()).unwrap_or_default(),
+        created_at: ev["datetime"].as_str().map(|s| s.to_string()),
+        sampling_override: None,
+    };
+    let req = spec.build(&router.config);
     let routes = router.match_request(&req);
     let mut action = Action::from_routes_rule(routes, &req, None);
     let s0 = action.get_status_code(0, None);
@@ -116,7 +146,8 @@ pub fn pipeline(router: &Router<Rule>, example: &Example) -> Option<(u16, u16, V
         o.extend(f.end(None));
         body = o;
     }
-    let log = action.should_log_request(true, fin, None);
+    // a proxy asks with the status the client receives: the backend's when no rule changed it
+    let log = action.should_log_request(true, if fin != 0 { fin } else { backend }, None);
     Some((fin, backend, headers.into_iter().map(|h| (h.name, h.value)).collect(), String::from_utf8_lossy(&body).to_string(), log))
 }
 
@@ -413,6 +444,9 @@ struct Body {
     reset: bool,
     stop: bool,
     examples: Vec<(u8, Option<String>, Option<u16>, bool, u8)>,
+    /// bits 0-1 == 1: header condition `X-Tag is_equals Bar`, examples send X-Tag in a generated letter case;
+    /// bits 2-3 == 3: the rule carries no example list at all (`examples: null`)
+    extra: u8,
 }
 
 fn body_strategy() -> BoxedStrategy<Body> {
@@ -433,16 +467,21 @@ fn body_strategy() -> BoxedStrategy<Body> {
     (
         (0..PATHS.len(), prop::bool::weighted(0.15), pickw(vec![(2u32, None), (3, Some(301u16)), (2, Some(302)), (1, Some(307)), (2, Some(308)), (1, Some(404))]), target),
         (pickw(vec![(6u32, None), (2, Some((vec![404u16], false))), (1, Some((vec![200], false))), (1, Some((vec![404], true)))]), 0u16..4, pickw(vec![(5u32, None), (1, Some(vec!["GET".to_string()])), (1, Some(vec!["POST".to_string()])), (2, Some(vec!["GET".to_string(), "POST".to_string()]))])),
-        (prop::option::weighted(0.4, 0u8..5), 0u8..6, pickw(vec![(4u32, None), (1, Some(true)), (1, Some(false))]), prop::bool::weighted(0.08), prop::bool::weighted(0.08)),
+        (prop::option::weighted(0.4, 0u8..5), 0u8..6, pickw(vec![(4u32, None), (1, Some(true)), (1, Some(false))]), prop::bool::weighted(0.08), prop::bool::weighted(0.08), 0u8..16),
         prop::collection::vec(example, 1..=2),
     )
-        .prop_map(|((path, host, status, target), (codes, rank, methods), (hf, bf, log, reset, stop), examples)| Body { path, host, status, target, codes, rank, methods, hf, bf, log, reset, stop, examples })
+        .prop_map(|((path, host, status, target), (codes, rank, methods), (hf, bf, log, reset, stop, extra), examples)| Body { path, host, status, target, codes, rank, methods, hf, bf, log, reset, stop, examples, extra })
         .boxed()
 }
 
 fn make_rule(id: &str, version: &str, b: &Body) -> RuleSpec {
     let path = PATHS[b.path];
     let mut r = RuleSpec::simple(id, path);
+    r.markers = crate::gen::template_markers(path).into_iter().map(crate::gen::marker_spec).collect();
+    let tagged = b.extra & 3 == 1;
+    if tagged {
+        r.source.headers = Some(vec![HeaderCondSpec { kind: "is_equals".into(), name: "X-Tag".into(), value: Some("Bar".into()) }]);
+    }
     r.source.host = if b.host { Some("example.com".to_string()) } else { None };
     r.source.methods = b.methods.clone();
     if let Some((c, ex)) = &b.codes {
@@ -484,20 +523,24 @@ fn make_rule(id: &str, version: &str, b: &Body) -> RuleSpec {
             .iter()
             .map(|(u, m, c, must, ids)| {
                 let url = match u {
-                    0 | 1 => path.to_string(),
-                    2 => format!("http://example.com{path}"),
-                    _ => PATHS[(b.path + 1) % PATHS.len()].to_string(),
+                    0 | 1 => url_of_path(path),
+                    2 => format!("http://example.com{}", url_of_path(path)),
+                    _ => url_of_path(PATHS[(b.path + 1) % PATHS.len()]),
                 };
+                let headers = if tagged { Some(vec![ExampleHeaderSpec { name: "X-Tag".into(), value: ["Bar", "bar", "BAR", "Baz"][(*u as usize + *ids as usize) % 4].into() }]) } else { None };
                 let unit_ids_applied = match ids {
                     0 => None,
                     1 => Some(vec![]),
                     2 | 3 => Some(r.redirect_unit_id.iter().cloned().collect()),
                     _ => Some(vec!["bogus-unit".to_string()]),
                 };
-                ExampleSpec { url, method: m.clone(), headers: None, datetime: None, ip_address: None, response_status_code: *c, must_match: *must, unit_ids_applied }
+                ExampleSpec { url, method: m.clone(), headers, datetime: None, ip_address: None, response_status_code: *c, must_match: *must, unit_ids_applied }
             })
             .collect(),
     );
+    if (b.extra >> 2) & 3 == 3 {
+        r.examples = None;
+    }
     r
 }
 
